@@ -321,6 +321,7 @@ def rule_r3_r4(ck, prog, cg, roles):
         raise AnalysisBroken('%s: member initialised from max_export_batch_size not found' % roles.short)
     n3 = n4 = 0
     seen_sites = set()
+    unbounded_pending = False
     for t in roles.thread_entries:
         tf = prog.funcs[t]
         g = Graph(prog, tf, inline=same_class_inline(prog, roles.cls), max_depth=3)
@@ -343,6 +344,7 @@ def rule_r3_r4(ck, prog, cg, roles):
             if v is True:
                 ck.holds('C03.R3', f, 'consume-count', cp.n, 'count passed to Consume is bounded by %s (%s)' % (roles.bound_field, why))
             elif v is False:
+                unbounded_pending = unbounded_pending or where == 'pending-flush-branch'
                 ck.violation('C03.R3', f, site, dp.n if dp is not None else cp.n,
                              'a definition of the batch count reaching Consume is not bounded by %s: %s' % (roles.bound_field, why),
                              path=g.describe_path(g.path(dp, cp) or []) if dp is not None else None)
@@ -357,6 +359,7 @@ def rule_r3_r4(ck, prog, cg, roles):
                     if ov is True:
                         ck.holds('C03.R3', f, osite, odp.n, owhy)
                     elif ov is False:
+                        unbounded_pending = unbounded_pending or osite.endswith('@pending-flush-branch')
                         ck.violation('C03.R3', f, osite, odp.n, 'unbounded definition: %s' % owhy)
                     else:
                         ck.inconclusive('C03.R3', f, osite, odp.n, owhy)
@@ -389,6 +392,26 @@ def rule_r3_r4(ck, prog, cg, roles):
                     ck.violation('C03.R4', ep.f, site4, ep.n,
                                  'a path reaches the exporter\'s Export without passing the non-empty test of the batch count',
                                  path=g.describe_path(pth or []))
+    # While the count taken on the pending-flush branch is not bounded (finding D1), every function that raises the ticket arms
+    # that branch. The flush entry is the documented one (and is what the finding describes); any other writer makes the worker
+    # take the unbounded branch with no ForceFlush call at all (e.g. during the shutdown drain).
+    if unbounded_pending and roles.pending:
+        writers = []
+        for f in roles.funcs:
+            if f is roles.flush:
+                continue
+            for n in f.nodes:
+                op = atomic_op(n)
+                if op and op[0] in ('rmw', 'store') and path_str(access_path(f, n['obj'])) == roles.pending:
+                    writers.append((f, n))
+        if writers:
+            for (f, n) in writers:
+                ck.violation('C03.R3', f, 'ticket-raised-outside-flush-entry', n,
+                             '%s writes the pending flush ticket %s: the worker\'s next cycle takes the pending-flush branch, whose batch count is '
+                             'not bounded by %s, without any ForceFlush call' % (f.name, roles.pending, roles.bound_field))
+        else:
+            ck.holds('C03.R3', roles.flush, 'unbounded-branch-armed-only-by-flush-entry', None,
+                     'only %s raises %s' % (roles.flush.name, roles.pending))
     return n3, n4
 
 
